@@ -75,6 +75,7 @@ type World struct {
 	// stream behaviour hooks
 	StreamStallAfter func(from, to, method string) (k int, d time.Duration) // k<0: none
 	refuseSync       bool
+	BodyBlind        bool
 }
 
 func NewWorld(seed uint64, rec *Recorder, plan NetPlan) *World {
@@ -155,6 +156,18 @@ func (w *World) StallNode(addr string, d time.Duration) {
 	w.mu.Unlock()
 }
 
+// evHash is the content tag written to the event log (0 for traffic whose bytes are random).
+func evHash(method string, body []byte) uint64 {
+	if bodyBlind || method == MDKGBcast || method == MDKGPacket {
+		return 0
+	}
+	return H64(0, body) & 0xffffff
+}
+
+// bodyBlind: in engines whose key material is generated with real randomness (E-daemon:
+// the DKG secret, hence every signature) no decision and no log line may depend on bytes.
+var bodyBlind bool
+
 type fate struct {
 	drop  bool
 	dup   bool
@@ -164,6 +177,11 @@ type fate struct {
 // fateOf decides what happens to one message; pure in (seed, identity, now).
 func (w *World) fateOf(from, to, method, dir string, body []byte) fate {
 	now := time.Now()
+	if w.BodyBlind || method == MDKGBcast || method == MDKGPacket {
+		// key-generation traffic carries fresh randomness (nonces, ephemeral keys): its bytes
+		// must not decide its fate, or one seed would no longer be one execution
+		body = nil
+	}
 	v := H64(w.Seed, "fate", from, to, method, dir, body, now.UnixNano())
 	w.mu.Lock()
 	defer w.mu.Unlock()
@@ -234,7 +252,7 @@ func (w *World) CallRaw(ctx context.Context, from, to, method string, body []byt
 	if h := w.OnWire; h != nil {
 		h(from, to, method, "req", body)
 	}
-	w.Rec.Ev("send", from, "%s -> %s %d bytes %x", method, to, len(body), H64(0, body)&0xffffff)
+	w.Rec.Ev("send", from, "%s -> %s %d bytes %x", method, to, len(body), evHash(method, body))
 	w.Rec.Count("msg:sent", 1)
 	f := w.fateOf(from, to, method, "req", body)
 	done := make(chan callResult, 2)
@@ -251,7 +269,7 @@ func (w *World) CallRaw(ctx context.Context, from, to, method string, body []byt
 		stop := context.AfterFunc(ctx, cancel)
 		defer stop()
 		defer cancel()
-		w.Rec.Ev("deliver", to, "%s from %s %x", method, from, H64(0, body)&0xffffff)
+		w.Rec.Ev("deliver", to, "%s from %s %x", method, from, evHash(method, body))
 		w.Rec.Count("msg:delivered", 1)
 		m, err := ep.Unary(sctx, method, append([]byte(nil), body...))
 		var rb []byte
@@ -266,7 +284,7 @@ func (w *World) CallRaw(ctx context.Context, from, to, method string, body []byt
 	if !f.drop {
 		time.AfterFunc(f.delay, func() { deliver(true) })
 		if f.dup {
-			time.AfterFunc(2*f.delay+time.Duration(H64(w.Seed, "dupd", body)%1000), func() { deliver(false) })
+			time.AfterFunc(2*f.delay+time.Duration(H64(w.Seed, "dupd", from, to, method, int64(f.delay))%1000), func() { deliver(false) })
 		}
 	}
 	select {
